@@ -249,13 +249,31 @@ package reflect
 //@   modifies M[p : p+8]
 //@   ensures n == typeToSize[t]
 
+// isBin(t): the Go slot is a []byte (24-byte header), directly or behind an optional pointer
+//@ spec func isBin(t *tType) bool = t.Tag == defs.T_binary || (t.IsPointer && t.V.Tag == defs.T_binary)
+// strLen(m, a): the signed 32-bit big-endian length prefix at a
+//@ spec func strLen(m Mem, a Int) Int = sgn32(R_u32(m, a))
+
+//@ func (t *tType) isBinary() (r bool)
+//@   requires wfT(t)
+//@   modifies nothing
+//@   ensures r == isBin(t)
+
 //@ func decodeStringNoCopy(t *tType, b []byte, p unsafe.Pointer) (i int, err error)
 //@   ghost wt Int
 //@   requires c03_wt: t.WT == wt
-//@   requires t != nil && p != nil
+//@   requires wfT(t) && t.WT == tSTRING && p != nil
+//@   requires c14_region: len(b) > 0 ==> b.ptr >= 65536
 //@   modifies M[p : p+24]
 //@   ensures 0 <= i && i <= len(b)
-//@   ensures len(b) < 4 ==> err != nil
+//@   ensures c14_short: len(b) < 4 ==> i == 0 && err == io.ErrShortBuffer && M == old(M)
+//@   ensures c14_neg: len(b) >= 4 && old(strLen(M, b.ptr)) < 0 ==> err != nil && M == old(M)
+//@   ensures c14_limit: len(b) >= 4 && old(strLen(M, b.ptr)) > len(b) - 4 ==> err != nil && M == old(M)
+//@   ensures c14_zero: len(b) >= 4 && old(strLen(M, b.ptr)) == 0 ==> err == nil && i == 4 && ld64(p+8) == 0
+//@        && (isBin(t) ==> ld64(p) == zerobase() && ld64(p+16) == 0) && (!isBin(t) ==> ld64(p) == 0)
+//@   ensures c14_view: len(b) >= 4 && 0 < old(strLen(M, b.ptr)) && old(strLen(M, b.ptr)) <= len(b) - 4 ==> err == nil && i == 4 + old(strLen(M, b.ptr))
+//@        && ld64(p) == b.ptr + 4 && ld64(p+8) == old(strLen(M, b.ptr)) && (isBin(t) ==> ld64(p+16) == old(strLen(M, b.ptr)))
+//@   ensures c14_hdronly: !isBin(t) ==> forall a Int :: {M[a]} p + 16 <= a && a < p + 24 ==> M[a] == old(M[a])
 
 // ---------------------------------------------------------------------------
 // decoder.go : struct and value decoders (mutually recursive; measure maxdepth)
@@ -303,6 +321,7 @@ package reflect
 //@   entry ghost $cptr = 0
 //@   after Copy ghost $cptr = res_r.ptr
 //@   requires c11_inbelow: b.ptr + len(b) <= $brk
+//@   requires c14_region: len(b) > 0 ==> b.ptr >= 65536
 //@   ensures c11_hdr_ptr: err == nil && sd.hasUnknownFields && $skn > 0 ==> old($brk) <= $cptr && ld64(base + sd.unknownFieldsOffset) == $cptr
 //@   ensures c11_hdr_len: err == nil && sd.hasUnknownFields && $skn > 0 ==> ld64(base + sd.unknownFieldsOffset + 8) == sumsz2($sksz, $skn) && ld64(base + sd.unknownFieldsOffset + 16) == sumsz2($sksz, $skn)
 //@   ensures c11_noholder: err == nil && (!sd.hasUnknownFields || $skn == 0) ==> $cptr == 0
@@ -328,6 +347,12 @@ package reflect
 //@   ghost lvl Int, wt Int
 //@   requires c03_wt: t.WT == wt
 //@   requires c11_inbelow: b.ptr + len(b) <= $brk
+//@   requires c14_region: len(b) > 0 ==> b.ptr >= 65536
+//@   ensures c06_str0: err == nil && t.T == tSTRING && maxdepth != 0 && old(strLen(M, b.ptr)) == 0 ==> n == 4 && ld64(p+8) == 0
+//@        && (isBin(t) ==> ld64(p) == zerobase() && ld64(p+16) == 0) && (!isBin(t) ==> ld64(p) == 0)
+//@   ensures c06_str: err == nil && t.T == tSTRING && maxdepth != 0 && old(strLen(M, b.ptr)) > 0 ==> n == 4 + old(strLen(M, b.ptr))
+//@        && ld64(p+8) == old(strLen(M, b.ptr)) && (isBin(t) ==> ld64(p+16) == old(strLen(M, b.ptr)))
+//@        && (old($brk) <= ld64(p) || (d.s.b <= ld64(p) && ld64(p) + old(strLen(M, b.ptr)) <= d.s.b + d.s.p))
 //@   requires t.FixedSize > 0 ==> len(b) >= t.FixedSize
 //@   requires c15_budget: maxdepth >= maxDepthLimit + 3 - 2*lvl
 //@   decreases maxdepth
@@ -361,7 +386,7 @@ package reflect
 //@ trusted func reflect.panicIfHackErr()
 
 //@ func Decode(b []byte, v any) (n int, err error)
-//@   requires len(b) <= MAXIN && b.ptr + len(b) <= $brk
+//@   requires len(b) <= MAXIN && b.ptr + len(b) <= $brk && (len(b) > 0 ==> b.ptr >= 65536)
 //@   modifies M, $brk
 //@   call Decode ghost lvl = 1
 //@   ensures 0 <= n && n <= len(b)
